@@ -87,8 +87,10 @@ func runCodec(w *tr.W, in codecIn) {
 	case "mc":
 		g := graphOfJ(in.Rep, in.G)
 		var b []byte
-		ev["encres"] = obs.Safe(func() { b = graph.MulticodeEncode(g) })
+		adj := ""
+		ev["encres"] = obs.Safe(func() { b = graph.MulticodeEncode(g); adj = graph.AdjacencyMatrixEncode(g) })
 		ev["enc"] = b2i(b)
+		ev["adj"] = bytesJ(adj)
 		if ev["encres"] == "ok" {
 			ev["dec"] = decEvent(func() (graph.Graph, error) { return graph.MulticodeDecode(append([]byte{}, b...)), nil })
 		}
